@@ -127,3 +127,34 @@ Proof.
   - vm_compute. discriminate.
   - exists k. split; [exact K1|]. intros m Hm. destruct (K2 m Hm) as (A & _ & B). split; assumption.
 Qed.
+
+(* ... and goes quiet: from round 7 on, every world of the example satisfies quietb *)
+Theorem rx_goes_quiet :
+  exists k, Z.of_nat k <= 7
+    /\ forall m, (k <= m)%nat -> pods_converged rx_set rx_upd 4 [1] (w_pods (rx_W m)) /\ quietb ex_hashes (rx_W m) (rx_W m) = true.
+Proof.
+  destruct (full_model_converges_and_goes_quiet ex_hashes rx_set rx_upd 4 3 10 [1]) with
+      (Wd := rx_W) (st0 := s_status rx_set) (rv0 := s_rv rx_set)
+      (rcur0 := ex_rev "web-h1" 1 1) (rupd := ex_rev "web-h2" 2 2) (coll := 0) as (k & K1 & K2).
+  - vm_compute. split; discriminate.
+  - reflexivity.
+  - repeat constructor; intros [].
+  - discriminate.
+  - reflexivity.
+  - reflexivity.
+  - reflexivity.
+  - reflexivity.
+  - reflexivity.
+  - intros k. reflexivity.
+  - reflexivity.
+  - apply rx_wf.
+  - apply rx_wf.
+  - intros p [<-|[<-|[<-|[]]]]; vm_compute; repeat split.
+  - intros j R t [<-|[]]. apply in_range_iff_desired in R. vm_compute in R.
+    destruct R as [<-|[<-|[<-|[]]]]; reflexivity.
+  - reflexivity.
+  - vm_compute. reflexivity.
+  - reflexivity.
+  - vm_compute. discriminate.
+  - exists k. split; [exact K1 | exact K2].
+Qed.
